@@ -174,6 +174,14 @@ ListCases ==
     LET idx == Lists[q] enc == Concat([h \in 1..Len(idx) |-> EncExt(Vals[PoolIdx[idx[h]]])]) IN
     [w \in 1..3 |-> [kind |-> "list", fn |-> ListFnOf(Whichs[w]), which |-> Whichs[w], bytes |-> enc,
                      val |-> q, extra |-> 0]]])
+(* position independence: one value of EVERY type in first position followed by two others, through the three list parsers *)
+FirstOfType == SelectSeq([j \in 1..Len(Vals) |-> j], LAMBDA j : j = 1 \/ Vals[j].t # Vals[j - 1].t \/ (Vals[j].t \in {"Grease", "Unknown"} /\ j % 7 = 0))
+OrderCases ==
+  Concat([q \in 1..Len(FirstOfType) |->
+    LET j == FirstOfType[q]  enc == EncExt(Vals[j]) IN
+    IF Len(enc) > 1000 THEN <<>> ELSE
+    [w \in 1..3 |-> [kind |-> "order", fn |-> ListFnOf(Whichs[w]), which |-> Whichs[w],
+                     bytes |-> enc \o <<0, 23, 0, 0>> \o EncExtRaw(99, <<1, 2>>), val |-> j, extra |-> 0]]])
 BrokenTails == << <<0>>, <<0, 23, 0>>, <<0, 23, 0, 1>>, <<0, 22, 0, 1, 9>>, <<0, 5, 0, 9, 1>> >>
 BrokenListCases ==
   Concat([q \in 1..Len(BrokenTails) |->
@@ -188,7 +196,7 @@ LongTailCases ==
       [q \in 1..2 |-> [kind |-> "single", fn |-> FnOf(Whichs[w]), which |-> Whichs[w],
                        bytes |-> EncExt(Vals[<<2, 13>>[q]]) \o [h \in 1..LongTails[t] |-> 171], val |-> <<2, 13>>[q], extra |-> LongTails[t]]]])])
 ASSUME TLCSet(1, LongTailCases \o SingleCases \o TagCases \o ForeignTagCases \o EmptyOnlyCases \o BeyondCases \o SpecialCases
-                 \o InnerCases \o TagInnerCases \o LongListCases \o ListCases \o BrokenListCases)
+                 \o InnerCases \o TagInnerCases \o LongListCases \o OrderCases \o ListCases \o BrokenListCases)
 ASSUME TLCSet(3, Lists)
 Cases == TLCGet(1)
 N == Len(Cases)
@@ -254,9 +262,16 @@ ListWholeBlock ==
          LET x == Vals[PoolIdx[idx[h]]] IN
          cres.v[h] = (IF x.t \in {"Grease", "Unknown"} \/ WireType(x) \in Recognised(c.which) THEN x ELSE AsUnknown(x))
 
+OrderIndependence ==
+  LET c == Cases[i] IN
+  c.kind = "order" =>
+    LET x == Vals[c.val]
+        first == IF x.t \in {"Grease", "Unknown"} \/ WireType(x) \in Recognised(c.which) THEN x ELSE AsUnknown(x) IN
+    /\ cres.k = "ok" /\ cres.p = Len(c.bytes) /\ Len(cres.v) = 3 /\ cres.v[1] = first
+    /\ cres.v[2] = [t |-> "ExtendedMasterSecret", tag |-> 23] /\ cres.v[3] = [t |-> "Unknown", tag |-> 99, ty |-> 99, data |-> <<1, 2>>]
 Pin ==
   LET c == Cases[i] IN
-  IF c.kind \in {"single", "tag", "list", "special", "longlist"} THEN "full"
+  IF c.kind \in {"single", "tag", "list", "special", "longlist", "order"} THEN "full"
   ELSE IF c.kind = "taginner" THEN (IF res.k = "ok" THEN "full" ELSE "novalue")
   ELSE IF c.kind = "foreigntag" THEN "err_kind"
   ELSE IF c.kind = "beyond" THEN "novalue"
